@@ -78,7 +78,6 @@ pub proof fn lemma_sum_expand(b: int, S: int, L: int, k: nat, shift: nat, pad: i
     assert((S * bs + pad) * br + lv == S * bk + (pad * br + lv)) by (nonlinear_arith) requires bk == bs * br;
 }
 
-pub open spec fn imin(a: int, b: int) -> int { if a <= b { a } else { b } }
 /// the EXACT sum  Sl * b^El + sg * Sr * b^Er  as an integer at the scale b^min(El, Er)
 pub open spec fn exact_sum(b: int, Sl: int, El: int, sg: Sign, Sr: int, Er: int) -> int {
     let F = imin(El, Er);
